@@ -110,7 +110,7 @@ Example c21_ops_roundtrip_partial_nonvacuous :
 Proof. split; reflexivity. Qed.
 
 (** FULL STATEMENT (kept visible; NOT proved for every operator shape — see notes/C21.md):
-      Theorem c21_ops_roundtrip : forall ops, regular ops = true -> parse (serialize ops) = expected ops.
+      c21_ops_roundtrip : forall ops, regular ops = true -> parse (serialize ops) = expected ops.
     Missing: the operator-level composition for names, colours, sc/SC, J/j/Tr, dash, Tf, Tj, TJ,
     comments and BDC/EMC (their lexeme lemmas are c21_escape_unescape, c21_number_token,
     c21_hex_token, c21_name_token); those shapes are covered by c21_roundtrip_nonvacuous and by the
